@@ -10,6 +10,7 @@ INVARIANT ExtendedReducesToLimiting
 INVARIANT IonSizeDamps
 INVARIANT ZeroAtZeroStrength
 INVARIANT ChargeEntersSquared
+INVARIANT NeutralSpecies
 INVARIANT TypeOK
 INVARIANT Emit
 CHECK_DEADLOCK FALSE
